@@ -47,11 +47,60 @@ def _loop_of_counter(f, name):
     return loops[0]
 
 
+def _discover_counter(f, view, over):
+    """the counter by its role: the one name advanced by 1 directly in (or enumerated by) the loop over the `over`
+    sequence - used when the catalogued name does not occur in the function (a renaming)"""
+    from ..side import side_of_name, expr_side
+    cands = []
+    tops = []
+    want_side = side_of_name(over) if over.isidentifier() else None
+    for n in walk_own(f.node):
+        if not isinstance(n, ast.For):
+            continue
+        it = n.iter
+        if want_side and expr_side(it) not in (None, want_side):
+            continue            # the sibling loop over the other side's tokens
+        if isinstance(it, ast.Call) and call_name(it) == 'enumerate' and it.args and isinstance(n.target, ast.Tuple) \
+                and isinstance(n.target.elts[0], ast.Name):
+            if over in U(view.expand(it.args[0], n)):
+                cands.append(n.target.elts[0].id)
+            continue
+        if over not in U(view.expand(it, n)):
+            continue
+
+        def direct(stmts):
+            for st in stmts:
+                if isinstance(st, ast.AugAssign) and isinstance(st.target, ast.Name) and isinstance(st.op, ast.Add) \
+                        and isinstance(st.value, ast.Constant) and st.value.value == 1:
+                    cands.append(st.target.id)
+                if isinstance(st, (ast.For, ast.While)):
+                    continue
+                for fld in ('body', 'orelse', 'finalbody'):
+                    sub = getattr(st, fld, None)
+                    if sub:
+                        direct(sub)
+        direct(n.body)
+        top = [st.target.id for st in n.body if isinstance(st, ast.AugAssign) and isinstance(st.target, ast.Name)]
+        tops.extend(top)
+    cands = sorted(set(cands))
+    if len(cands) > 1:
+        # several names advance in that loop: the position counter is the one advanced at the top level of the body
+        # (a tally such as an overlap count advances only under a test)
+        narrowed = [c for c in cands if c in tops]
+        if len(narrowed) == 1:
+            return narrowed[0]
+    return cands[0] if len(cands) == 1 else None
+
+
 def check_counter(ctx, path, qual, name, at_most=False, over=None):
     repo = ctx.repo
     f = repo.fn(path, qual)
     view = view_of(f)
     key = name
+    if over is not None and not any(isinstance(n, ast.Name) and n.id == name for n in ast.walk(f.node)):
+        found = _discover_counter(f, view, over)
+        if found is not None:
+            name = found
     loop = _loop_of_counter(f, name)
     if loop is None:
         # enumerate idiom: for name, x in enumerate(..)
@@ -148,12 +197,17 @@ def check_counter(ctx, path, qual, name, at_most=False, over=None):
               stale if stale is not None else loop, sample='all reads precede the advance')
 
 
-def check_appends(ctx):
+def check_appends(ctx, sites=True):
     """exactly one mask entry per candidate row; one profile row per attribute"""
     repo = ctx.repo
     for path, qual, lst in ((FILTER_BASE, '_filter_candset_split', 'valid_rows'), (PROFILER, 'profile_table_for_join', 'profile_output')):
+        if sites is not True and not any(s_ in path for s_ in ([sites] if isinstance(sites, str) else sites)):
+            continue
         f = repo.fn(path, qual)
         view = view_of(f)
+        if path == FILTER_BASE:
+            from .common import mask_list_name
+            lst = mask_list_name(f, lst)
         loops = [n for n in walk_own(f.node) if isinstance(n, ast.For) and any(
             isinstance(c, ast.Call) and isinstance(c.func, ast.Attribute) and c.func.attr == 'append'
             and isinstance(c.func.value, ast.Name) and c.func.value.id == lst for c in ast.walk(n))]
@@ -197,7 +251,7 @@ def run(ctx, which=None, appends=False, caches=False, extrema=False, pairpos=Fal
         check_counter(ctx, path, qual, name, at_most, over)
         n += 1
     if appends:
-        check_appends(ctx)
+        check_appends(ctx, appends)
     if caches:
         check_row_caches(ctx)
     if extrema:
@@ -230,11 +284,22 @@ def check_row_caches(ctx):
         for x in ast.walk(lp):
             if isinstance(x, ast.Name) and isinstance(x.ctx, ast.Store):
                 variant.add(x.id)
+        # per-row lists by role: attributes of the index object other than the postings, and locals that build() hands
+        # back under a key other than 'empty_records' (those are read as <list>[row id] by the callers)
+        returned = set()
+        for x in walk_own(b.node):
+            if isinstance(x, ast.Return) and isinstance(x.value, ast.Dict):
+                for k, v in zip(x.value.keys, x.value.values):
+                    if isinstance(k, ast.Constant) and k.value != 'empty_records' and isinstance(v, ast.Name):
+                        returned.add(v.id)
         lists = set()
         for x in ast.walk(lp):
             if isinstance(x, ast.Call) and isinstance(x.func, ast.Attribute) and x.func.attr == 'append':
-                r = U(x.func.value)
-                if 'cache' in r and 'index' not in r.split('.')[-1]:
+                recv = x.func.value
+                r = U(recv)
+                if isinstance(recv, ast.Attribute) and U(recv.value) == 'self' and recv.attr != 'index':
+                    lists.add(r)
+                elif isinstance(recv, ast.Name) and recv.id in returned:
                     lists.add(r)
         for lst in sorted(lists):
             n += 1
@@ -322,12 +387,12 @@ def check_extrema(ctx):
     ctx.floor('R-ONCE/extrema', n, 4, 'index extrema')
 
 
-def check_pair_position(ctx):
+def check_pair_position(ctx, f_override=None):
     """PositionFilter.filter_pair: the left position stored per prefix token must never exceed the token's
     first position (an over-estimate of the remaining tokens is safe, an under-estimate prunes qualifying
     pairs; with bags of q-grams a token repeats and a later store would overwrite the first position)."""
     repo = ctx.repo
-    f = repo.fn(FILTERS['PositionFilter'][0], 'PositionFilter.filter_pair')
+    f = f_override or repo.fn(FILTERS['PositionFilter'][0], 'PositionFilter.filter_pair')
     view = view_of(f)
     loops = [x for x in f.node.body if isinstance(x, ast.For)]
     stores = []
@@ -337,6 +402,16 @@ def check_pair_position(ctx):
                     and isinstance(x.targets[0].slice, ast.Name) and isinstance(lp.target, ast.Name) \
                     and x.targets[0].slice.id == lp.target.id:
                 stores.append((lp, x))
+    if not stores and not getattr(ctx, '_pp_retry', False):
+        # the position dictionary built by a comprehension: analyse the equivalent loop
+        from ..normalise import loopified
+        f2 = loopified(repo, FILTERS['PositionFilter'][0], 'PositionFilter.filter_pair')
+        if f2 is not None:
+            ctx._pp_retry = True
+            try:
+                return check_pair_position(ctx, f2)
+            finally:
+                ctx._pp_retry = False
     if len(stores) != 1:
         raise AnalysisError('%s: left prefix position store not found' % f.where)
     lp, st = stores[0]
